@@ -165,10 +165,17 @@ def finish(pid, tier, seed, engines, wall, level="model_checking", assumptions=(
         if f["id"] not in seen:
             seen.add(f["id"])
             print("KNOWN-FINDING: property=%s %s [%s]" % (pid, f["what"], f["id"]))
-    for v, _ in viol[:20]:
+    shown = {}
+    for v, _ in viol:
+        key = json.dumps(v.get("signature"), sort_keys=True)
+        shown[key] = shown.get(key, 0) + 1
+        if shown[key] > 2 or len(shown) > 10:
+            continue
         path = write_replay(pid, v)
         print("VIOLATION property=%s replay=%s" % (pid, path))
         print("  " + (v.get("what") or "")[:400])
+    if viol:
+        print("  (%d violating cases in %d classes)" % (len(viol), len(shown)))
     states = sum(r.get("states", 0) for e in engines for r in e.tlc_runs)
     trans = sum(r.get("transitions", 0) for e in engines for r in e.tlc_runs)
     samples = []
